@@ -3,7 +3,6 @@
 From Coq Require Import Lia ZifyBool ZifyN.
 From HostdBase Require Import Base.
 From HostdWallet Require Import Model Lib.
-Set Implicit Arguments.
 
 (** * Specification side: what the best chain alone determines *)
 
@@ -324,16 +323,16 @@ Proof.
   destruct (matured_sum (utxos s) h 0) as [m| |] eqn:Em; cbn [bind]; try discriminate.
   apply matured_sum_spec in Em.
   destruct (delete_elems (utxos s) (ab_spent b) h 0 0) as [[[u1 mo] io]| |] eqn:Ed; cbn [bind]; try discriminate.
-  destruct (delete_elems_spec h _ _ _ _ S Hsp NDs Ed) as [E1 [S1 [I1 [M1 [J1 [Mo Io]]]]]].
+  destruct (delete_elems_spec h _ _ _ _ _ _ _ S Hsp NDs Ed) as [E1 [S1 [I1 [M1 [J1 [Mo Io]]]]]].
   assert (forall e, In e (ab_created b) -> tmem eid (eid e) u1 = false) as Hcr1.
   { intros e He. apply tmem_false_In. intros y Hy E. apply I1 in Hy. destruct Hy as [Hy _].
     apply (proj1 (tmem_false_In eid (eid e) (utxos s)) (Hcr e He) y Hy E). }
   destruct (create_elems u1 (ab_created b) h 0 0) as [[[u2 mi] ii]| |] eqn:Ec; cbn [bind]; try discriminate.
-  destruct (create_elems_spec h _ _ _ _ S1 Hcr1 NDc Ec) as [E2 [S2 [I2 [M2 [J2 [Mi Ii]]]]]].
+  destruct (create_elems_spec h _ _ _ _ _ _ _ S1 Hcr1 NDc Ec) as [E2 [S2 [I2 [M2 [J2 [Mi Ii]]]]]].
   destruct (cadd mi m) as [mi'| |] eqn:A1; cbn [bind]; try discriminate. apply cadd_ok in A1.
   destruct (cadd io m) as [io'| |] eqn:A2; cbn [bind]; try discriminate. apply cadd_ok in A2.
   destruct (update_balance (mbal s) (mimm s) mi' mo ii io' (ab_ts b)) as [[bal imm]| |] eqn:Eu; cbn [bind]; try discriminate.
-  intros [= <-]. unfold bal_at. cbn. subst u2 u1. repeat split; auto.
+  intros [= <-]. unfold bal_at. cbn [utxos events mbal mimm a_idx a_addr a_hash tip set_wallet]. subst u2 u1. repeat split; auto.
   - eapply (update_balance_spec _ _ _ _ _ _ _ _ _ (msum h (ins_all (ab_created b) (del_all (ab_spent b) (utxos s))))
               (isum h (ins_all (ab_created b) (del_all (ab_spent b) (utxos s)))) Eu); lia.
   - eapply (update_balance_spec _ _ _ _ _ _ _ _ _ (msum h (ins_all (ab_created b) (del_all (ab_spent b) (utxos s))))
@@ -354,25 +353,308 @@ Lemma wallet_revert_spec s r s' :
 Proof.
   intros S Hrm NDr Hun NDu [Hb Hi]. unfold wallet_revert. set (h := ih (rb_idx r)) in *.
   destruct (delete_elems (utxos s) (rb_removed r) h 0 0) as [[[u1 mo] io]| |] eqn:Ed; cbn [bind]; try discriminate.
-  destruct (delete_elems_spec h _ _ _ _ S Hrm NDr Ed) as [E1 [S1 [I1 [M1 [J1 [Mo Io]]]]]].
+  destruct (delete_elems_spec h _ _ _ _ _ _ _ S Hrm NDr Ed) as [E1 [S1 [I1 [M1 [J1 [Mo Io]]]]]].
   rewrite <- E1 in Hun.
   destruct (create_elems u1 (rb_unspent r) h 0 0) as [[[u2 mi] ii]| |] eqn:Ec; cbn [bind]; try discriminate.
-  destruct (create_elems_spec h _ _ _ _ S1 Hun NDu Ec) as [E2 [S2 [I2 [M2 [J2 [Mi Ii]]]]]].
+  destruct (create_elems_spec h _ _ _ _ _ _ _ S1 Hun NDu Ec) as [E2 [S2 [I2 [M2 [J2 [Mi Ii]]]]]].
   destruct (matured_sum u2 h 0) as [m| |] eqn:Em; cbn [bind]; try discriminate.
   apply matured_sum_spec in Em.
   destruct (cadd mo m) as [mo'| |] eqn:A1; cbn [bind]; try discriminate. apply cadd_ok in A1.
   destruct (cadd ii m) as [ii'| |] eqn:A2; cbn [bind]; try discriminate. apply cadd_ok in A2.
   destruct (update_balance (mbal s) (mimm s) mi mo' ii' io (rb_ts r)) as [[bal imm]| |] eqn:Eu; cbn [bind]; try discriminate.
-  intros [= <-]. unfold bal_below. cbn. rewrite <- E1, <- E2. repeat split; auto.
+  intros [= <-]. unfold bal_below. cbn [utxos events mbal mimm a_idx a_addr a_hash tip set_wallet]. rewrite <- E1, <- E2. repeat split; auto.
   - (* mature: the new current value B satisfies B + qsum = msum h u2 *)
     assert (qsum h u2 <= msum h u2)%N as Hle.
     { clear. unfold qsum, msum. induction u2 as [|e t IH]; cbn [wsum]; [lia|].
       unfold qval at 1, mval at 1. destruct (emat e =? h)%N eqn:A, (emat e <=? h)%N eqn:B; lia. }
-    pose proof (update_balance_spec _ _ _ _ _ _ _ _ _ (msum h u2 - qsum h u2)%N
-              (isum h u2 + qsum h u2)%N Eu) as [HB _]; [lia|lia|]. lia.
+    assert (scur (mbal s) + mi = (msum h u2 - qsum h u2) + mo')%N as P1 by lia.
+    assert (scur (mimm s) + ii' = (isum h u2 + qsum h u2) + io)%N as P2 by lia.
+    destruct (update_balance_spec _ _ _ _ _ _ _ _ _ _ _ Eu P1 P2) as [HB _]. lia.
   - assert (qsum h u2 <= msum h u2)%N as Hle.
     { clear. unfold qsum, msum. induction u2 as [|e t IH]; cbn [wsum]; [lia|].
       unfold qval at 1, mval at 1. destruct (emat e =? h)%N eqn:A, (emat e <=? h)%N eqn:B; lia. }
-    pose proof (update_balance_spec _ _ _ _ _ _ _ _ _ (msum h u2 - qsum h u2)%N
-              (isum h u2 + qsum h u2)%N Eu) as [_ HI]; [lia|lia|]. lia.
+    assert (scur (mbal s) + mi = (msum h u2 - qsum h u2) + mo')%N as P1 by lia.
+    assert (scur (mimm s) + ii' = (isum h u2 + qsum h u2) + io)%N as P2 by lia.
+    destruct (update_balance_spec _ _ _ _ _ _ _ _ _ _ _ Eu P1 P2) as [_ HI]. lia.
+Qed.
+
+(** * Chains *)
+Lemma valid_chain_app X : forall Y, valid_chain (X ++ Y) -> valid_chain Y.
+Proof. induction X as [|b X IH]; intros Y H; cbn in H; [exact H|]. apply IH. tauto. Qed.
+
+Lemma chain_heights b C : valid_chain (b :: C) -> forall c, In c C -> (ih (ab_idx c) < ih (ab_idx b))%N.
+Proof.
+  revert b. induction C as [|t C IH]; intros b H c Hc; [destruct Hc|].
+  cbn [valid_chain] in H. destruct H as [Ht [Hh _]].
+  destruct Hc as [->|Hc]; [lia|]. specialize (IH t Ht c Hc). lia.
+Qed.
+
+Lemma efold_vix C : valid_chain C -> forall v, In v (efold C) -> exists c, In c C /\ vix v = ab_idx c.
+Proof.
+  induction C as [|b C IH]; intros H v Hv; cbn [efold] in Hv; [destruct Hv|].
+  cbn [valid_chain] in H. destruct H as [HC [_ [_ [_ [_ [_ [Hev NDe]]]]]]].
+  apply (ins_events_spec (ab_events b) (efold C) (efold_sorted C)) in Hv; [|intros e He; apply (Hev e He)|exact NDe].
+  destruct Hv as [Hv|Hv].
+  - destruct (IH HC v Hv) as [c [Hc E]]. exists c. split; [right; exact Hc|exact E].
+  - exists b. split; [left; reflexivity|apply (Hev v Hv)].
+Qed.
+
+Lemma idx_eqb_eq a b : idx_eqb a b = true <-> a = b.
+Proof.
+  unfold idx_eqb. rewrite Bool.andb_true_iff, !N.eqb_eq. destruct a, b; cbn. split; [intros [-> ->]; reflexivity|intros [= -> ->]; auto].
+Qed.
+
+Lemma filter_sorted A (key : A -> N) p l : ssorted key l -> ssorted key (filter p l).
+Proof.
+  induction l as [|x t IH]; cbn; [auto|]. intros [L S]. destruct (p x); cbn; [|auto].
+  split; [|auto]. intros y Hy. apply filter_In in Hy. apply L. tauto.
+Qed.
+
+(* disconnecting the tip block gives back the events of the chain below it *)
+Lemma revert_events b C : valid_chain (b :: C) ->
+  filter (fun e => negb (idx_eqb (vix e) (ab_idx b))) (efold (b :: C)) = efold C.
+Proof.
+  intros H. apply (ssorted_ext vid).
+  - apply filter_sorted. apply efold_sorted.
+  - apply efold_sorted.
+  - intros y. rewrite filter_In. cbn [efold].
+    pose proof H as H'. cbn [valid_chain] in H'. destruct H' as [HC [_ [_ [_ [_ [_ [Hev NDe]]]]]]].
+    rewrite (ins_events_spec (ab_events b) (efold C) (efold_sorted C)); [|intros e He; apply (Hev e He)|exact NDe].
+    split.
+    + intros [[Hy|Hy] Hp]; [exact Hy|].
+      destruct (Hev y Hy) as [E _]. rewrite E in Hp.
+      assert (idx_eqb (ab_idx b) (ab_idx b) = true) as R by (apply idx_eqb_eq; reflexivity).
+      rewrite R in Hp. discriminate.
+    + intros Hy. split; [left; exact Hy|].
+      destruct (efold_vix C HC y Hy) as [c [Hc E]].
+      pose proof (chain_heights b C H c Hc) as Hlt.
+      destruct (idx_eqb (vix y) (ab_idx b)) eqn:Q; [|reflexivity].
+      apply idx_eqb_eq in Q. rewrite E in Q. rewrite Q in Hlt. lia.
+Qed.
+
+(* ... and the unspent outputs of the chain below it *)
+Lemma revert_utxos b C : valid_chain (b :: C) ->
+  (forall e, In e (ab_created b) -> In e (ufold (b :: C))) /\
+  (forall e, In e (ab_spent b) -> tmem eid (eid e) (del_all (ab_created b) (ufold (b :: C))) = false) /\
+  ins_all (ab_spent b) (del_all (ab_created b) (ufold (b :: C))) = ufold C.
+Proof.
+  intros H. cbn [valid_chain] in H. destruct H as [HC [_ [Hsp [NDs [Hcr [NDc _]]]]]].
+  set (U := ufold C) in *. assert (ssorted eid U) as SU by apply ufold_sorted.
+  destruct (del_all_spec (ab_spent b) U SU) as [S1 I1].
+  assert (forall e, In e (ab_created b) -> tmem eid (eid e) (del_all (ab_spent b) U) = false) as Hcr1.
+  { intros e He. apply tmem_false_In. intros y Hy E. apply I1 in Hy. destruct Hy as [Hy _].
+    apply (proj1 (tmem_false_In eid (eid e) U) (Hcr e He) y Hy E). }
+  destruct (ins_all_spec (ab_created b) (del_all (ab_spent b) U) S1 Hcr1 NDc) as [S2 I2].
+  cbn [ufold]. fold U. set (X := ins_all (ab_created b) (del_all (ab_spent b) U)) in *.
+  destruct (del_all_spec (ab_created b) X S2) as [S3 I3].
+  assert (forall e, In e (ab_spent b) -> tmem eid (eid e) (del_all (ab_created b) X) = false) as Hsp3.
+  { intros e He. apply tmem_false_In. intros y Hy E. apply I3 in Hy. destruct Hy as [Hy Hn].
+    apply I2 in Hy. destruct Hy as [Hy|Hy].
+    - apply I1 in Hy. destruct Hy as [_ Hn2]. apply Hn2. rewrite E. apply in_map. exact He.
+    - apply Hn. apply in_map. exact Hy. }
+  split; [|split].
+  - intros e He. apply I2. right. exact He.
+  - exact Hsp3.
+  - destruct (ins_all_spec (ab_spent b) (del_all (ab_created b) X) S3 Hsp3 NDs) as [S4 I4].
+    apply (ssorted_ext eid); [exact S4|exact SU|].
+    intros y. rewrite I4, I3, I2, I1. split.
+    + intros [[[[Hy _]|Hy] Hn]|Hy]; [exact Hy| |apply Hsp; exact Hy].
+      exfalso. apply Hn. apply in_map. exact Hy.
+    + intros Hy. destruct (in_dec N.eq_dec (eid y) (ids (ab_spent b))) as [Hin|Hnin].
+      * right. unfold ids in Hin. apply in_map_iff in Hin. destruct Hin as [e [E He]].
+        assert (e = y) as -> by (apply (ssorted_unique eid U e y SU (Hsp e He) Hy E)). exact He.
+      * left. split; [left; split; [exact Hy|exact Hnin]|].
+        intros Hin. unfold ids in Hin. apply in_map_iff in Hin. destruct Hin as [e [E He]].
+        apply (proj1 (tmem_false_In eid (eid e) U) (Hcr e He) y Hy). symmetry. exact E.
+Qed.
+
+(** * The wallet invariant: the stored state is the function of the processed chain *)
+Definition tip_height (C : list ablock) : N := match C with [] => 0%N | b :: _ => ih (ab_idx b) end.
+
+Definition winv (s : state) (C : list ablock) : Prop :=
+  valid_chain C /\ utxos s = ufold C /\ events s = efold C /\ bal_at s (tip_height C).
+
+Lemma bal_at_nil s h h' : utxos s = [] -> bal_at s h -> bal_at s h'.
+Proof. unfold bal_at. intros ->. cbn. tauto. Qed.
+
+Lemma winv_apply s C b s' : winv s C -> valid_chain (b :: C) -> wallet_apply s b = Ok s' ->
+  winv s' (b :: C) /\ a_idx s' = a_idx s /\ a_addr s' = a_addr s /\ a_hash s' = a_hash s /\ tip s' = tip s.
+Proof.
+  intros [HC [HU [HE HB]]] HV Ha. pose proof HV as HV'. cbn [valid_chain] in HV'.
+  destruct HV' as [_ [Hh [Hsp [NDs [Hcr [NDc _]]]]]].
+  assert (bal_below s (ih (ab_idx b))) as Hbelow.
+  { destruct C as [|t C].
+    - cbn [ufold] in HU. unfold bal_below. destruct HB as [B1 B2]. rewrite HU in *. cbn in *. lia.
+    - cbn [tip_height] in HB. rewrite Hh. apply bal_below_of_at. exact HB. }
+  rewrite <- HU in Hsp, Hcr.
+  destruct (wallet_apply_spec s b s' (eq_ind_r (ssorted eid) (ufold_sorted C) HU) Hsp NDs Hcr NDc Hbelow Ha) as [U' [E' [B' R]]].
+  split; [|exact R]. split; [exact HV|]. split; [|split].
+  - rewrite U', HU. reflexivity.
+  - rewrite E', HE. reflexivity.
+  - exact B'.
+Qed.
+
+Lemma winv_revert s b C r s' : winv s (b :: C) ->
+  rb_idx r = ab_idx b -> rb_removed r = ab_created b -> rb_unspent r = ab_spent b ->
+  wallet_revert s r = Ok s' ->
+  winv s' C /\ a_idx s' = a_idx s /\ a_addr s' = a_addr s /\ a_hash s' = a_hash s /\ tip s' = tip s.
+Proof.
+  intros [HV [HU [HE HB]]] Ei Er Eu Hr. pose proof HV as HV'. cbn [valid_chain] in HV'.
+  destruct HV' as [HC [Hh [_ [NDs [_ [NDc _]]]]]].
+  destruct (revert_utxos b C HV) as [R1 [R2 R3]].
+  cbn [tip_height] in HB.
+  assert (ssorted eid (utxos s)) as S by (rewrite HU; apply ufold_sorted).
+  destruct (wallet_revert_spec s r s' S) as [U' [E' [B' R]]].
+  - rewrite Er, HU. exact R1.
+  - rewrite Er. exact NDc.
+  - rewrite Er, Eu, HU. exact R2.
+  - rewrite Eu. exact NDs.
+  - rewrite Ei. exact HB.
+  - exact Hr.
+  - split; [|exact R]. split; [exact HC|]. split; [|split].
+    + rewrite U', Er, Eu, HU. exact R3.
+    + rewrite E', Ei, HE. apply revert_events. exact HV.
+    + rewrite Ei in B'. destruct C as [|t C].
+      * cbn [tip_height]. assert (utxos s' = []) as Z by (rewrite U', Er, Eu, HU; exact R3).
+        unfold bal_below in B'. unfold bal_at. rewrite Z in *. cbn in *. lia.
+      * cbn [tip_height]. rewrite Hh in B'. apply bal_at_of_below. exact B'.
+Qed.
+
+Lemma winv_applies : forall bs s C s', winv s C -> valid_chain (rev bs ++ C) -> wallet_applies s bs = Ok s' ->
+  winv s' (rev bs ++ C) /\ a_idx s' = a_idx s /\ a_addr s' = a_addr s /\ a_hash s' = a_hash s /\ tip s' = tip s.
+Proof.
+  induction bs as [|b t IH]; intros s C s' W V; cbn [wallet_applies rev app].
+  - intros [= <-]. tauto.
+  - destruct (wallet_apply s b) as [s1| |] eqn:Ea; cbn [bind]; try discriminate. intros Ht.
+    cbn [rev] in V. rewrite <- app_assoc in V. cbn [app] in V.
+    destruct (winv_apply s C b s1 W (valid_chain_app (rev t) (b :: C) V) Ea) as [W1 [A1 [A2 [A3 A4]]]].
+    destruct (IH s1 (b :: C) s' W1 V Ht) as [W2 [B1 [B2 [B3 B4]]]].
+    rewrite <- app_assoc. cbn [app]. split; [exact W2|]. repeat split; congruence.
+Qed.
+
+Lemma winv_reverts : forall rs s C s', winv s C -> wf_reverts C rs -> wallet_reverts s rs = Ok s' ->
+  winv s' (skipn (length rs) C) /\ a_idx s' = a_idx s /\ a_addr s' = a_addr s /\ a_hash s' = a_hash s /\ tip s' = tip s.
+Proof.
+  induction rs as [|r t IH]; intros s C s' W F; cbn [wallet_reverts length skipn].
+  - intros [= <-]. tauto.
+  - destruct C as [|b C]; [destruct F|]. cbn [wf_reverts] in F. destruct F as [F1 [F2 [F3 [_ F5]]]].
+    destruct (wallet_revert s r) as [s1| |] eqn:Er; cbn [bind]; try discriminate. intros Ht.
+    destruct (winv_revert s b C r s1 W F1 F2 F3 Er) as [W1 [A1 [A2 [A3 A4]]]].
+    destruct (IH s1 C s' W1 F5 Ht) as [W2 [B1 [B2 [B3 B4]]]].
+    split; [exact W2|]. repeat split; congruence.
+Qed.
+
+Lemma settings_update_wallet s rs bs :
+  utxos (settings_update s rs bs) = utxos s /\ events (settings_update s rs bs) = events s /\
+  mbal (settings_update s rs bs) = mbal s /\ mimm (settings_update s rs bs) = mimm s /\
+  tip (settings_update s rs bs) = tip s.
+Proof.
+  unfold settings_update.
+  destruct (ann_reverts (a_idx s) rs (a_idx s) (a_addr s) (a_hash s)) as [[ai aa] ah].
+  destruct (batch_v1 bs) as [[i addr]|]; destruct (batch_v2 bs) as [[[i2 h2] [|]]|]; cbn; tauto.
+Qed.
+
+Lemma winv_ext s s' C : winv s C -> utxos s' = utxos s -> events s' = events s ->
+  mbal s' = mbal s -> mimm s' = mimm s -> winv s' C.
+Proof.
+  unfold winv, bal_at. intros [A [B [D [E F]]]] -> -> -> ->. tauto.
+Qed.
+
+(* the state after a batch, split into its three phases *)
+Lemma batch_phases s rs bs s' : batch s rs bs = Ok s' -> (rs <> [] \/ bs <> []) ->
+  exists s1 s2, wallet_reverts s rs = Ok s1 /\ wallet_applies s1 bs = Ok s2 /\
+    utxos s' = utxos s2 /\ events s' = events s2 /\ mbal s' = mbal s2 /\ mimm s' = mimm s2 /\
+    a_idx s' = a_idx (settings_update s2 rs bs) /\ a_addr s' = a_addr (settings_update s2 rs bs) /\
+    a_hash s' = a_hash (settings_update s2 rs bs) /\ tip s' = last_idx rs bs (tip s2).
+Proof.
+  intros H Hne. unfold batch in H.
+  assert ((do s1 <- wallet_reverts s rs; do s2 <- wallet_applies s1 bs;
+          (let s3 := settings_update s2 rs bs in
+           Ok {| utxos := utxos s3; events := events s3; mbal := mbal s3; mimm := mimm s3;
+                 a_idx := a_idx s3; a_addr := a_addr s3; a_hash := a_hash s3;
+                 tip := last_idx rs bs (tip s3) |})) = Ok s') as H'.
+  { destruct rs, bs; try exact H. destruct Hne as [X|X]; congruence. }
+  clear H. destruct (wallet_reverts s rs) as [s1| |] eqn:H1; cbn [bind] in H'; try discriminate.
+  destruct (wallet_applies s1 bs) as [s2| |] eqn:H2; cbn [bind] in H'; try discriminate.
+  injection H' as <-. exists s1, s2. cbn.
+  destruct (settings_update_wallet s2 rs bs) as [A [B [D [E F]]]]. rewrite F. repeat split; auto.
+Qed.
+
+Lemma winv_batch s C rs bs s' : winv s C -> wf_batch C rs bs -> batch s rs bs = Ok s' ->
+  winv s' (chain_after C rs bs).
+Proof.
+  intros W [F V] H. destruct rs as [|r rs'] eqn:Ers, bs as [|b bs'] eqn:Ebs.
+  - cbn in H. injection H as <-. exact W.
+  - destruct (batch_phases s [] (b :: bs') s' H) as [s1 [s2 [H1 [H2 [A [B [D [E _]]]]]]]]; [right; discriminate|].
+    cbn in H1. injection H1 as <-.
+    destruct (winv_applies (b :: bs') s C s2 W V H2) as [W2 _].
+    exact (winv_ext s2 s' _ W2 A B D E).
+  - destruct (batch_phases s (r :: rs') [] s' H) as [s1 [s2 [H1 [H2 [A [B [D [E _]]]]]]]]; [left; discriminate|].
+    cbn in H2. injection H2 as <-.
+    destruct (winv_reverts (r :: rs') s C s1 W F H1) as [W1 _].
+    exact (winv_ext s1 s' _ W1 A B D E).
+  - destruct (batch_phases s (r :: rs') (b :: bs') s' H) as [s1 [s2 [H1 [H2 [A [B [D [E _]]]]]]]]; [left; discriminate|].
+    destruct (winv_reverts (r :: rs') s C s1 W F H1) as [W1 _].
+    destruct (winv_applies (b :: bs') s1 _ s2 W1 V H2) as [W2 _].
+    exact (winv_ext s2 s' _ W2 A B D E).
+Qed.
+
+Lemma winv_init : winv init [].
+Proof. unfold winv, bal_at. cbn. tauto. Qed.
+
+Theorem reach_winv s C : reach s C -> winv s C.
+Proof.
+  induction 1 as [|s C rs bs s' R IH F H|s C R IH].
+  - exact winv_init.
+  - exact (winv_batch s C rs bs s' IH F H).
+  - exact winv_init.
+Qed.
+
+(** * Statements used by Props_C16.v *)
+Lemma utxos_events_function_of_chain s C : reach s C ->
+  utxos s = ufold C /\ events s = efold C.
+Proof. intros R. destruct (reach_winv s C R) as [_ [A [B _]]]. tauto. Qed.
+
+Lemma balance_metrics s C : reach s C ->
+  scur (mbal s) = msum (tip_height C) (utxos s) /\ scur (mimm s) = isum (tip_height C) (utxos s).
+Proof. intros R. destruct (reach_winv s C R) as [_ [_ [_ B]]]. exact B. Qed.
+
+(* what Store.Metrics(now) reports once [now] is not before the newest data point *)
+Lemma balance_metrics_observed s C now : reach s C ->
+  (smaxkey (mbal s) <= bucket now)%N -> (smaxkey (mimm s) <= bucket now)%N ->
+  snd (step s (Observe now)) =
+    OState (ufold C) (efold C) (msum (tip_height C) (ufold C)) (isum (tip_height C) (ufold C))
+           (a_idx s) (a_addr s) (a_hash s) (tip s).
+Proof.
+  intros R H1 H2. destruct (reach_winv s C R) as [_ [A [B [D E]]]]. cbn [step snd].
+  rewrite (sread_cur _ _ H1), (sread_cur _ _ H2), D, E, A, B. reflexivity.
+Qed.
+
+(* the inverse law: disconnecting a block that was just connected restores the wallet state *)
+Lemma revert_apply_inverse s C b r s1 s2 : reach s C -> valid_chain (b :: C) ->
+  rb_idx r = ab_idx b -> rb_removed r = ab_created b -> rb_unspent r = ab_spent b ->
+  wallet_apply s b = Ok s1 -> wallet_revert s1 r = Ok s2 ->
+  utxos s2 = utxos s /\ events s2 = events s /\
+  scur (mbal s2) = scur (mbal s) /\ scur (mimm s2) = scur (mimm s).
+Proof.
+  intros R V E1 E2 E3 Ha Hr. pose proof (reach_winv s C R) as W.
+  destruct (winv_apply s C b s1 W V Ha) as [W1 _].
+  destruct (winv_revert s1 b C r s2 W1 E1 E2 E3 Hr) as [W2 _].
+  destruct W as [_ [A [B [D E]]]]. destruct W2 as [_ [A2 [B2 [D2 E2']]]].
+  rewrite A, B, A2, B2, D, E, D2, E2', A, A2. tauto.
+Qed.
+
+(* un-maturing: after the tip at height h+1 is disconnected, an output with maturity h+1 counts
+   as immature again *)
+Lemma unmature_on_revert s b C r s' e : reach s (b :: C) -> C <> [] ->
+  rb_idx r = ab_idx b -> rb_removed r = ab_created b -> rb_unspent r = ab_spent b ->
+  wallet_revert s r = Ok s' -> In e (utxos s') -> emat e = ih (ab_idx b) ->
+  scur (mbal s') = msum (tip_height C) (utxos s') /\ mval (tip_height C) e = 0%N /\
+  ival (tip_height C) e = eval e.
+Proof.
+  intros R Hne E1 E2 E3 Hr He Hm. pose proof (reach_winv _ _ R) as W.
+  destruct (winv_revert s b C r s' W E1 E2 E3 Hr) as [[_ [_ [_ [B _]]]] _].
+  split; [exact B|]. destruct W as [V _]. destruct C as [|t C]; [congruence|].
+  cbn [valid_chain] in V. destruct V as [_ [Hh _]]. cbn [tip_height].
+  unfold mval, ival. destruct (emat e <=? ih (ab_idx t))%N eqn:Q; [lia|auto].
 Qed.
